@@ -332,3 +332,10 @@ func init() {
 	prop("C07", "C03-R7")
 	prop("C02", "C03-R7")
 }
+
+func init() {
+	prop("C04", "C17-R2") // a reader between the two halves of an index-entry move answers without reaching the row (seed C04/h, hash index fix)
+	prop("C07", "C17-R2")
+	prop("C05", "C04-R8") // a scan that skips a row another transaction only marked commits on a state no serial order produces (seed C05/g)
+	prop("C12", "C19-R2") // a reader without the page latch pairs old offsets with moved bytes (seed C12/g)
+}
